@@ -974,7 +974,7 @@ fn gen_part(rng: &mut Rng, thorough: bool, out: &mut Vec<Case>) {
                             my_xs.remove(i);
                         }
                     }
-                    let extra = if thorough { 4 } else { 1 };
+                    let extra = if thorough { 2 } else { 1 };
                     for i in 0..extra {
                         my_xs.push(if i % 2 == 0 { random_operand(rng, t) } else { rng.pick(&bs).clone() });
                     }
